@@ -36,7 +36,7 @@ Qed.
 
 Lemma obs_insts_id : forall l0 l1,
   map inst_static l1 = map inst_static l0 ->
-  obs_insts l0 (map (fun i => (i_orders i, i_pos i, i_last i)) l1) = l1.
+  obs_insts l0 (map (fun i => (i_orders i, i_pos i, i_data i)) l1) = l1.
 Proof.
   intros l0 l1. revert l0. induction l1 as [|x t IH]; intros [|y u] H; cbn in *; try discriminate; [reflexivity|].
   inversion H. unfold obs_insts in *. cbn. rewrite IH by assumption. f_equal.
@@ -74,14 +74,14 @@ Qed.
 
 Lemma inst_same_refl : forall b, inst_same b b = true.
 Proof.
-  intros b. unfold inst_same. rewrite omap_eqb_refl, (option_eqb_refl _ _ pos_eqb_refl), (option_eqb_refl _ _ zz_eqb_refl). reflexivity.
+  intros b. unfold inst_same. rewrite omap_eqb_refl, (option_eqb_refl _ _ pos_eqb_refl), mdata_eqb_refl. reflexivity.
 Qed.
 
 Lemma rest_same_of_rest : forall (l l' : list inst) idx b a,
   map inst_rest l' = map inst_rest l -> nthN l idx = Some b -> nthN l' idx = Some a -> rest_same b a = true.
 Proof.
   intros l l' idx b a Hm Hb Ha. pose proof (rest_nth l l' idx b a Hm Ha Hb) as E. unfold inst_rest in E.
-  unfold rest_same. inversion E. rewrite (option_eqb_refl _ _ pos_eqb_refl), (option_eqb_refl _ _ zz_eqb_refl). reflexivity.
+  unfold rest_same. inversion E. rewrite (option_eqb_refl _ _ pos_eqb_refl), mdata_eqb_refl. reflexivity.
 Qed.
 
 Definition prev_ok (s : state) (prev : option (ifilter * list creq)) : Prop :=
@@ -288,7 +288,7 @@ Proof.
   destruct o as [ev| |c|e stt].
   - (* process *)
     rewrite (surjective_pairing (process (cs_of cl) s0 ev g)) in *. cbn [fst snd] in *.
-    destruct ev as [|c| | | | | | |]; try (unfold oracle_step; cbn [the_command st_op]; trivial_step Hafter Ot).
+    destruct ev as [|c| | | | | | | | | |]; try (unfold oracle_step; cbn [the_command st_op]; trivial_step Hafter Ot).
     destruct c as [rs|rs|f|f]; try (unfold oracle_step; cbn [the_command st_op]; trivial_step Hafter Ot).
     + (* close positions *)
       destruct cl as [strat base|cs os]; [|unfold oracle_step; cbn [the_command st_op st_close]; trivial_step Hafter Ot].
@@ -335,6 +335,7 @@ Qed.
 Theorem oracle_sound_C19 : forall c, valid_case c = true -> corr_b c = true -> prop_b c = true.
 Proof.
   intros c Hv Hc. unfold valid_case in Hv. apply andb_true_iff in Hv. destruct Hv as [Hwf _].
+  apply andb_true_iff in Hwf. destruct Hwf as [Hwf _].
   unfold prop_b. apply (sound_run19 (c_steps c) (c_init c)); [exact Hwf| |exact Hc].
   split; [reflexivity|]. split; [reflexivity|exact I].
 Qed.
